@@ -17,7 +17,7 @@ struct hs_ghost {
   bool closed;                     /* closeSession(sid) was called */
   size_t hs_n, cl; bool chunked;   /* current request: length of its header block, framing state after its header-field scan */
   bool sess_present;               /* _sessionInfo.find(sid) != end() */
-  bool cl_fell;                    /* hid_cl_value: the try/catch block was left by falling off its end (not by `return`) */
+  bool cl_fell;                    /* hid_cl_value / hid_cl_block: the block was left by falling off its end (not by `return`) */
 } G;
 typedef struct { struct { iora_sv buffer; } second; } hs_sess;
 hs_sess G_sess;                    /* the SessionInfo entry of sid */
@@ -47,13 +47,33 @@ typedef struct { struct { hs_str buffer; } second; } hs_sess_cap;
 static inline size_t hs_str_size(const hs_str *s) { return s->n; }
 static inline void hs_str_append(hs_str *x, const hs_str *y) { IORA_ASSERT(y->n <= ((size_t)1 << 62) - x->n, "string growth below max_size()"); x->n += y->n; }
 
-/* ---- std::stoull(value) (libstdc++ over strtoull): any value, or std::invalid_argument / std::out_of_range ---- */
+/* ---- the header field value handed to the Content-Length block: an ABSTRACT string (no bytes): its length, whether every character is a
+ * decimal digit, whether the digit string's numeric value fits 64 bits, and that value. Well-formedness (arithmetic fact, HS_VAL_WF, required by the
+ * contracts): a non-empty all-digit string of at most 19 characters is < 10^19 < 2^64, so it fits. (Longer all-digit strings may or may not fit:
+ * leading zeros.) ---- */
 #define EXC_invalid_argument 1
 #define EXC_out_of_range 2
-typedef struct { size_t n; } hs_val;
+typedef struct { size_t n; bool all_digits; bool fits64; uint64_t num; } hs_val;
+typedef struct { bool is_cl; } hs_key;
+#define HS_VAL_WF(v_) (!((v_).all_digits && (v_).n >= 1 && (v_).n <= 19) || (v_).fits64)
+static inline bool hs_val_empty(const hs_val *v) { return v->n == 0; }
+static inline size_t hs_val_size(const hs_val *v) { return v->n; }
+/* value.find_first_not_of("0123456789"): npos iff every character is a digit (vacuously for the empty string), else an index inside the string */
+static inline size_t hs_val_first_non_digit(const hs_val *v)
+{
+  if (v->all_digits || v->n == 0) return IORA_NPOS;
+  size_t r = nondet_size_t(); IORA_ASSUME(r < v->n); return r;
+}
+static inline bool hs_key_is_cl(hs_key k) { return k.is_cl; }          /* key == "content-length" (key was lower-cased by the scan) */
+/* std::stoull(value) (libstdc++ over strtoull, base 10). A non-empty all-digit string: its value, or std::out_of_range when the value exceeds
+ * 2^64-1 - a FUNCTION of the string (two calls on the same value agree). Anything else (sign, whitespace, junk, empty): any value or
+ * std::invalid_argument / std::out_of_range. */
 static inline unsigned long long hs_stoull(hs_val v)
 {
-  (void)v;
+  if (v.all_digits && v.n >= 1) {
+    if (!v.fits64) { iora_exc = EXC_out_of_range; return 0; }
+    return v.num;
+  }
   if (nondet_bool()) { iora_exc = nondet_bool() ? EXC_invalid_argument : EXC_out_of_range; return 0; }
   return (unsigned long long)nondet_size_t();
 }
